@@ -240,8 +240,11 @@ func ratStrs(vs []*big.Rat) []string {
 	return res
 }
 
+// c02Prefix: the opens in front of every journal (the first-day-of-the-calendar plan swaps it).
+var c02Prefix = opensPrefix
+
 func c02One(drv *core.Driver, body []jr.Dir, cfg ref.BalCfg) (string, string, *core.Outcome) {
-	all := append(opensPrefix(), body...)
+	all := append(c02Prefix(), body...)
 	text := jr.RenderAll(all)
 	drv.Files(map[string]string{"j.knut": text})
 	args := append([]string{"balance", "--color=false", "--digits", "8"}, cfg.Args()...)
@@ -395,6 +398,36 @@ func c02Run(e *core.Env) {
 	})
 	e.SetBound("journal_depth", maxN)
 	e.BeginTail()
+	// journals that begin on the first day of the calendar (0001-01-01 is also Go's zero time)
+	c02Prefix = func() []jr.Dir {
+		var ds []jr.Dir
+		for _, a := range allAccounts {
+			ds = append(ds, jr.O("0001-01-01", a))
+		}
+		return ds
+	}
+	ep := []string{"0001-01-01", "0001-01-02", "0001-02-03"}
+	epAlpha, epCfgs := bodyAlphabet(ep, false), windowCfgs(ep[:2], false)
+	var epA []jr.Dir
+	for _, d := range epAlpha {
+		if d.Accrue == nil {
+			epA = append(epA, d)
+		}
+	}
+	e.Note("first day of the calendar: journal alphabet %d symbols, depth <= 2, %d flag sets per journal", len(epA), len(epCfgs))
+	forEachSeq(e, epA, 2, func(seq []jr.Dir) {
+		for _, cfg := range epCfgs {
+			if !e.Take() {
+				continue
+			}
+			key, detail, _ := c02One(drv, seq, cfg)
+			e.Count("evaluations")
+			if key != "" {
+				e.Violation(key+":year-one", detail, balCase{Body: cloneDirs(seq), Cfg: cfg}, nil)
+			}
+		}
+	})
+	c02Prefix = opensPrefix
 	// the same around the end of a leap year (31 Dec 2020 is day 366; week, month, quarter
 	// and year change between two consecutive days)
 	ye := []string{"2020-12-31", "2021-01-01"}
